@@ -17,8 +17,13 @@
 (*   m, f, rf     is_match, find, rfind (character indices; -1,-1 = None)  *)
 (*   bd           every range returned lies on character boundaries        *)
 (*                within the text                                          *)
-(*   d            a second compilation + the same calls gave the same      *)
+(*   d            the same calls after a second parse_with_config, after   *)
+(*                from_ast_and_config(Ast::new(..)) and - default          *)
+(*                configuration - after parse and from_ast gave the same   *)
 (*                results                                                  *)
+(*   rx           Ast::to_regex depends on the two anchors only ("Only the *)
+(*                anchor_begin and anchor_end options in config affect the *)
+(*                results") and fmt_regex writes the same text             *)
 (*   fa, ra       is_match of the pattern with both anchors added (and     *)
 (*                literal_period off) on the part found by find / rfind    *)
 (*                (1 / 0; -1: nothing found)                               *)
@@ -43,6 +48,7 @@ CfgOf(r) == [ab |-> r.ab, ae |-> r.ae, sh |-> r.sh, lp |-> r.lp, ci |-> r.ci]
 Structural(r) ==
   LET f == r.f  g == r.rf  n == Len(r.s) IN
   IF ~r.d THEN "determinism"
+  ELSE IF ~r.rx THEN "to_regex-config"
   ELSE IF ~r.cf THEN "config-accessor"
   ELSE IF r.il # r.lit \/ r.iv # r.lv THEN "into_literal"
   ELSE IF r.m # (f # None) \/ (f = None) # (g = None) THEN "is_match-find-rfind"
